@@ -39,6 +39,11 @@ CHANGE = {
  ('seeded10','C09'): ("Slots::help: with the reader on another storage address it re-reads the control and `continue`s instead of leaving when the control is unchanged", "a reader suspended inside its fallback window on container x while a writer of another container y walks past its node: the writer never finishes"),
  ('seeded10','C15'): ("RefCnt::into_ptr for Weak / rc::Weak reuses `Self::as_ptr` (the inherent Weak::as_ptr): Weak::new() converts to std's sentinel, not to null", "a dangling Weak::new(): as_ptr and into_ptr disagree; compare_and_swap / rcu on an empty ArcSwapWeak never return"),
  ('seeded10','C19'): ("unsafe impl Sync for Guard<T, S> where T::Base: Sync (the bound belongs on the pointer T)", "Guard<Rc<U>> or Guard<Arc<U>> with U: Sync + !Send shared by reference between threads"),
+ ('seeded11','C01'): ("Debt::pay_all pays the fast slots only: the helping slot is left to `help()` (which looks at the control word alone)", "a reader on the fallback path between the end of its window and its own increment while a writer replaces the value: the value is destroyed under the reader"),
+ ('seeded11','C04'): ("hybrid compare_and_swap: strong exchange without the retry loop; after a failed exchange it returns a fresh load", "A-B-A by another writer between the failed exchange and the second load: the call reports success for a value it never stored"),
+ ('seeded11','C05'): ("hybrid compare_and_swap: on a non-spurious failure of the exchange it drops everything and returns a fresh load instead of retrying", "A-B-A inside the call: returns `current` although `new` was rejected and destroyed; rcu loses an update"),
+ ('seeded11','C08'): ("HybridProtection::fallback retries the whole fallback when its own pay-off finds the debt already paid", "a writer storing after every confirming swap of a reader that holds 8 guards: the reader's steps grow with the number of writes"),
+ ('seeded11','C18'): ("ArcSwapAny::compare_and_swap hands only the raw address of `current` to the strategy; a by-value guard is released as a parameter of the wrapper", "a guard given by value that is the last owner of a value whose destructor panics: the returned guard leaks with its slot"),
  ('seeded10','C20'): ("Serialize for ArcSwapAny reads the raw pointer (Acquire) and serializes through ManuallyDrop without a guard", "a store into the container while it is being serialized (from another thread or from the pointee's own Serialize)"),
  ('seeded8','C01'): ("HybridProtection::into_inner pays the debt back first and takes its own reference only if that succeeded (was: increment, then pay, decrement if already paid)", "a writer whose walk passes the just-emptied slot and drops the last reference before the reader's increment (load_full / Guard::into_inner racing with a store)"),
  ('seeded8','C03'): ("Slots::help keeps the replacement it loaded when its offer fails and offers the same (possibly stale) value on the next round", "two writers and a reader on the fallback path: the reader finishes one load and starts the next between the helper's load and its second offer"),
